@@ -188,6 +188,21 @@ def check_tag_loop(chk, sname, body, info, P="C13"):
                 if v == 0:
                     fbb = b
             true_bb = nxt["else"]
+        if fbb is None:
+            # equivalent spelling: `if set.contains(&n) { return Err(Duplicate) } set.insert(n);`
+            cons = [(bb, t) for bb, t in body.calls() if bb in arm and callee(t).startswith(HS) and
+                    callee(t).endswith("::contains") and body.dominates(T, bb) and body.dominates(bb, ibb)]
+            if len(cons) == 1 and const_through_ref(tr, cons[0][1]["args"][1]) == n and \
+                    set_local_of(tr, cons[0][1]["args"][0]) == sl and cons[0][1]["to"] is not None:
+                ct = cons[0][1]
+                nxt2 = body.blocks[ct["to"]]["term"]
+                if nxt2["t"] == "switch" and op_place(nxt2["d"]) and \
+                        tr.nplace(op_place(nxt2["d"])) == NPlace(ct["dest"]["l"], []):
+                    absent = dict((v, b) for v, b in nxt2["targets"]).get(0)
+                    # the insert happens on the first-occurrence (absent) edge only
+                    if absent is not None and body.dominates(absent, ibb):
+                        fbb = nxt2["else"]          # already present -> duplicate
+                        true_bb = absent
         if not chk.require(fbb is not None, P + "-b/dup-branch", inst,
                            "result of the duplicate-set insert is not tested", "", site):
             continue
@@ -328,7 +343,13 @@ def check_tag_loop(chk, sname, body, info, P="C13"):
                     if a.kind == "ref" and a.place.strip_deref() == NPlace(in_local0, []) and y == e_true:
                         benign = True
                         what = "input empty"
-                if v.kind == "rv" and v.rv["r"] == "bin" and v.rv["op"] in ("Ne", "Eq") and in_local0 is not None:
+                if v.kind == "rv" and v.rv["r"] == "bin" and in_local0 is not None:
+                    em = emptiness_test(tr, v.rv, in_local0)
+                    zero_t = dict((val, tb) for val, tb in tx["targets"]).get(0)
+                    if em is not None and y == (e_true if em else zero_t):
+                        benign = True
+                        what = "input empty"
+                if v.kind == "rv" and v.rv["r"] == "bin" and v.rv["op"] in ("Ne", "Eq") and in_local0 is not None and not benign:
                     if progress_guard(body, tr, hdr, loop_blocks, in_local0, sw_bb) and \
                             (len_of_local(tr, v.rv["a"], in_local0) or len_of_local(tr, v.rv["b"], in_local0)):
                         benign = True
@@ -373,6 +394,27 @@ def check_tag_loop(chk, sname, body, info, P="C13"):
     chk.require(not _reaches(body, E, hdr) or guarded, P + "-d/unknown-tag-exit", sname,
                 "after an unknown tag the loop continues without a progress guard (the tag would be re-read "
                 "forever)", "default arm exits (or the no-progress guard ends the loop)", site)
+
+
+def emptiness_test(tr, rv, local):
+    """True if the comparison rv is true exactly when `local` (a slice) is empty, False if it is true
+    exactly when it is non-empty, None otherwise: len == 0, len < 1, len <= 0 | len != 0, len > 0, len >= 1."""
+    op = rv["op"]
+    a, b = rv["a"], rv["b"]
+    if len_of_local(tr, a, local):
+        n = tr.const_int(b)
+    elif len_of_local(tr, b, local):
+        n = tr.const_int(a)
+        op = {"Lt": "Gt", "Le": "Ge", "Gt": "Lt", "Ge": "Le"}.get(op, op)
+    else:
+        return None
+    if n is None:
+        return None
+    if (op, n) in (("Eq", 0), ("Lt", 1), ("Le", 0)):
+        return True
+    if (op, n) in (("Ne", 0), ("Gt", 0), ("Ge", 1)):
+        return False
+    return None
 
 
 def len_of_local(tr, operand, local):
